@@ -10,7 +10,7 @@ namespace C02
 open Lex Grammar Build
 
 inductive Flag where | pk | increment | unique | notNull | note (t : Str) | prop (k v : Str) | defInt (d : Str)
-  | ref (k : RefKind) (tn cn : Str)
+  | ref (k : RefKind) (tn cn : Str) | defStr (t : Str)
   deriving DecidableEq
 
 def Flag.text : Flag → Str
@@ -22,6 +22,7 @@ def Flag.text : Flag → Str
   | .prop k v => k ++ ':' :: ' ' :: '\'' :: (prepareTextForDbml v ++ ['\''])
   | .defInt d => 'd' :: 'e' :: 'f' :: 'a' :: 'u' :: 'l' :: 't' :: ':' :: ' ' :: d
   | .ref k tn cn => IRefT.text { kind := k, tn := tn, cn := cn }
+  | .defStr t => 'd' :: 'e' :: 'f' :: 'a' :: 'u' :: 'l' :: 't' :: ':' :: ' ' :: '\'' :: (prepareTextForDbml t ++ ['\''])
 
 /-- the words a setting may begin with: a property key beginning with one of them is read as that setting
     (KF-C01-prop-key-kw-prefix) -/
@@ -36,12 +37,18 @@ def KeyOK (k : Str) : Prop :=
     takes for "no default" - FalsyDefault), at most 4300 of them (KF-C08-huge-int) -/
 def DigitsOK (d : Str) : Prop := d ≠ [] ∧ d.all isDigit = true ∧ d.head? ≠ some '0' ∧ d.length ≤ 4300
 
+/-- a string default the round trip covers: one plain line, not empty (`if model.default:` takes '' for "no default"),
+    no triple quote, and not one of the words `default_to_str` writes bare (`null`, `true`, `false` in any case) -/
+def DStrOK (t : Str) : Prop :=
+  Plain t ∧ hasTriple t = false ∧ t ≠ [] ∧ lowerAscii t ≠ lit "null" ∧ lowerAscii t ≠ lit "true" ∧ lowerAscii t ≠ lit "false"
+
 /-- what a settings item must satisfy: a note is one plain line without a triple quote -/
 def Flag.ok (props : Bool) : Flag → Prop
   | .note t => Plain t ∧ hasTriple t = false
   | .prop k v => props = true ∧ KeyOK k ∧ Plain v ∧ hasTriple v = false
   | .defInt d => DigitsOK d
   | .ref _ tn cn => NameOK tn ∧ NameOK cn
+  | .defStr t => DStrOK t
   | _ => True
 
 def Flag.setting : Flag → ColSetting
@@ -53,6 +60,7 @@ def Flag.setting : Flag → ColSetting
   | .prop k v => .prop k v
   | .defInt d => .default (.int d)
   | .ref k tn cn => .ref (IRefT.bp { kind := k, tn := tn, cn := cn })
+  | .defStr t => .default (.str t)
 
 theorem swc_ne2 (x y : Char) (r : Str) (s : String) (k1 k2 : Char) (ks : Str) (hs : s.toList = k1 :: k2 :: ks)
     (h : (pyUpper1 k2 == pyUpper1 y) = false) : startsWithCaseless (x :: y :: r) s.toList = false := by
@@ -175,6 +183,42 @@ theorem columnSetting_flag (c : Cur) (w : Flag) (x : Char) (rest : Str) (hn : (s
       clit_fail "unique" c _ _ hN (swc_ne 'n' _ "unique" 'u' _ rfl (by decide)),
       clit_fail "increment" c _ _ hN (swc_ne 'n' _ "increment" 'i' _ rfl (by decide)),
       hnote, after c2 hr2, pure, ppure, Flag.setting]
+  | defStr t =>
+    obtain ⟨ht, h3, hne, _⟩ := hw
+    have h1 : C13.oneLine t = true := by
+      simp only [C13.oneLine, Bool.not_eq_true', List.any_eq_false, Bool.or_eq_true, decide_eq_true_eq, not_or]
+      intro ch hch
+      have := (ht ch hch).1
+      constructor <;> (rintro rfl; simp [isLineBreak] at this)
+    have hn' : (skipWs c).rest = ['d', 'e', 'f', 'a', 'u', 'l', 't', ':'] ++ ' ' :: '\'' :: (prepareTextForDbml t ++ '\'' :: x :: rest) := by
+      rw [hn]; simp [Flag.text]
+    have hN : Next c 'd' ('e' :: 'f' :: 'a' :: 'u' :: 'l' :: 't' :: ':' :: ' ' :: '\'' :: (prepareTextForDbml t ++ '\'' :: x :: rest)) := hn'
+    obtain ⟨q1, q2⟩ := quiet_of_next c 'd' _ hN (by decide) (by decide)
+    have hs0 := skipNl_stay c q1 q2
+    obtain ⟨c1, hk, hr1, hp1⟩ := clit_ok "default:" c ['d', 'e', 'f', 'a', 'u', 'l', 't', ':'] _ hn' (by decide)
+      (by simp [startsWithCaseless] <;> decide) hp
+    have hN1 : Next c1 '\'' (prepareTextForDbml t ++ '\'' :: x :: rest) :=
+      skipWs_rest_spaces c1 1 '\'' _ (by rw [hr1]; rfl) (by decide)
+    obtain ⟨q3, q4⟩ := quiet_of_next c1 '\'' _ hN1 (by decide) (by decide)
+    have hs1 := skipNl_stay c1 q3 q4
+    obtain ⟨c2, hsl, hr2, hp2⟩ := stringLiteral_ok c1 t (x :: rest) hN1 hp1 h1 h3 (Or.inl hne)
+    have hdef : defaultRule c = .ok (Bp.DefaultBp.str t) c2 := by
+      unfold defaultRule
+      simp only [bind, pbind, hk, cut, hs1, alt, hsl, pure, ppure]
+    refine ⟨c2, ?_, hr2, hp2⟩
+    unfold columnSetting
+    simp only [bind, pbind, hs0, alt,
+      clit_fail "not null" c _ _ hN (swc_ne 'd' _ "not null" 'n' _ rfl (by decide)),
+      clit_fail "null" c _ _ hN (swc_ne 'd' _ "null" 'n' _ rfl (by decide)),
+      clit_fail "primary key" c _ _ hN (swc_ne 'd' _ "primary key" 'p' _ rfl (by decide)),
+      clit_fail "pk" c _ _ hN (swc_ne 'd' _ "pk" 'p' _ rfl (by decide)),
+      clit_fail "unique" c _ _ hN (swc_ne 'd' _ "unique" 'u' _ rfl (by decide)),
+      clit_fail "increment" c _ _ hN (swc_ne 'd' _ "increment" 'i' _ rfl (by decide)),
+      show noteRule c = .fail by
+        unfold noteRule; simp only [bind, pbind, clit_fail "note:" c _ _ hN (swc_ne 'd' _ "note:" 'n' _ rfl (by decide))],
+      show refInline c = .fail by
+        unfold refInline; simp only [bind, pbind, clit_fail "ref:" c _ _ hN (swc_ne 'd' _ "ref:" 'r' _ rfl (by decide))],
+      hdef, after c2 hr2, pure, ppure, Flag.setting]
   | prop k v => exact absurd rfl (hnp k v)
   | ref k tn cn =>
     obtain ⟨htn, hcn⟩ := hw
@@ -385,6 +429,7 @@ theorem item_ok (props : Bool) (c : Cur) (w : Flag) (x : Char) (rest : Str)
   | note t => exact key (by intro k v h; cases h)
   | defInt d => exact key (by intro k v h; cases h)
   | ref k' tn cn => exact key (by intro k v h; cases h)
+  | defStr t => exact key (by intro k v h; cases h)
 
 /-! ### the settings list: `[w1, w2, …]` -/
 
@@ -410,6 +455,7 @@ theorem flag_text_head (props : Bool) (w : Flag) (hw : w.ok props) :
   | notNull => exact ⟨'n', _, rfl, by decide, by decide, by decide⟩
   | note t => exact ⟨'n', _, rfl, by decide, by decide, by decide⟩
   | defInt d => exact ⟨'d', _, rfl, by decide, by decide, by decide⟩
+  | defStr t => exact ⟨'d', _, rfl, by decide, by decide, by decide⟩
   | ref k tn cn => exact ⟨'r', _, rfl, by decide, by decide, by decide⟩
 
 theorem many_flags (props : Bool) (ws : List Flag) (post : Str) (hws : ∀ w ∈ ws, w.ok props) :
@@ -618,11 +664,14 @@ structure FCol where
   dflt : Str := []
   /-- the inline references the column declares (kind, names of the target table and column) -/
   irefs : List IRefT := []
+  /-- a string default; empty means: none (at most one of `dflt`, `dstr` is set) -/
+  dstr : Str := []
 
 /-- the ordinary settings in the order the renderer writes them -/
 def FCol.base (s : FCol) : List Flag :=
   (if s.pk then [Flag.pk] else []) ++ (if s.increment then [Flag.increment] else [])
     ++ (if s.dflt.isEmpty then [] else [Flag.defInt s.dflt])
+    ++ (if s.dstr.isEmpty then [] else [Flag.defStr s.dstr])
     ++ (if s.unique then [Flag.unique] else []) ++ (if s.notNull then [Flag.notNull] else [])
     ++ (if s.note.isEmpty then [] else [Flag.note s.note])
 
@@ -638,12 +687,13 @@ def FCol.bp (s : FCol) : Bp.ColBp :=
   { name := s.name, type := s.type, unique := s.unique, notNull := s.notNull, pk := s.pk, autoinc := s.increment,
     note := if s.note.isEmpty then none else some s.note,
     props := if s.props.isEmpty then none else some s.props,
-    default := if s.dflt.isEmpty then none else some (.int s.dflt),
+    default := if s.dflt.isEmpty then (if s.dstr.isEmpty then none else some (.str s.dstr)) else some (.int s.dflt),
     refs := s.irefs.map IRefT.bp }
 
 def FCol.col (s : FCol) : Column :=
   { name := s.name, type := .plain s.type, unique := s.unique, notNull := s.notNull, pk := s.pk, autoinc := s.increment,
-    note := s.note, props := s.props, default := if s.dflt.isEmpty then none else some (.int s.dflt) }
+    note := s.note, props := s.props,
+    default := if s.dflt.isEmpty then (if s.dstr.isEmpty then none else some (.str s.dstr)) else some (.int s.dflt) }
 
 /-- a quoted name, a one-word type, a note that is one plain normalised line without a triple quote; properties
     only with the switch on, their keys pairwise different bare identifiers that are not read as settings, their
@@ -659,12 +709,14 @@ structure FCol.ok (ap : Bool) (s : FCol) : Prop where
   values : ∀ kv ∈ s.props, Plain kv.2 ∧ hasTriple kv.2 = false
   distinct : s.props.Pairwise (fun a b => a.1 ≠ b.1)
   digits : s.dflt = [] ∨ DigitsOK s.dflt
+  dstrOK : s.dstr = [] ∨ DStrOK s.dstr
+  oneDefault : s.dflt = [] ∨ s.dstr = []
   refNames : ∀ r ∈ s.irefs, NameOK r.tn ∧ NameOK r.cn
 
 theorem FCol.flags_ok (ap : Bool) (s : FCol) (hok : s.ok ap) : ∀ w ∈ s.flags, w.ok ap := by
   intro w hw
   simp only [FCol.flags, FCol.base, propFlags, refFlags, List.mem_append, List.mem_map] at hw
-  rcases hw with ⟨r, hr, rfl⟩ | (((((h | h) | h) | h) | h) | h) | ⟨kv, hkv, rfl⟩
+  rcases hw with ⟨r, hr, rfl⟩ | ((((((h | h) | h) | h) | h) | h) | h) | ⟨kv, hkv, rfl⟩
   · exact hok.refNames r hr
   · split at h <;> simp at h; subst h; trivial
   · split at h <;> simp at h; subst h; trivial
@@ -673,6 +725,13 @@ theorem FCol.flags_ok (ap : Bool) (s : FCol) (hok : s.ok ap) : ∀ w ∈ s.flags
     · rename_i hne
       simp at h; subst h
       rcases hok.digits with hd | hd
+      · rw [hd] at hne; simp at hne
+      · exact hd
+  · split at h
+    · simp at h
+    · rename_i hne
+      simp at h; subst h
+      rcases hok.dstrOK with hd | hd
       · rw [hd] at hne; simp at hne
       · exact hd
   · split at h <;> simp at h; subst h; trivial
@@ -805,30 +864,58 @@ theorem FCol.base_no_prop (s : FCol) : ∀ x ∈ s.base.map Flag.setting, ∀ k 
   simp only [List.mem_map] at hx
   obtain ⟨w, hw, rfl⟩ := hx
   simp only [FCol.base, List.mem_append] at hw
-  rcases hw with ((((h' | h') | h') | h') | h') | h' <;> (split at h' <;> simp at h'; subst h'; simp [Flag.setting] at h)
+  rcases hw with (((((h' | h') | h') | h') | h') | h') | h' <;> (split at h' <;> simp at h'; subst h'; simp [Flag.setting] at h)
 
-theorem FCol.settings_bp (s : FCol) (w : Flag) (ws : List Flag) (h : s.flags = w :: ws)
-    (hd : s.props.Pairwise (fun a b => a.1 ≠ b.1)) :
+theorem FCol.base_refs (s : FCol) : (foldColSettings (s.base.map Flag.setting) none).refs = [] := by
+  show (s.base.map Flag.setting).filterMap (fun x => match x with | .ref r => some r | _ => none) = []
+  rw [List.filterMap_eq_nil_iff]
+  intro x hx
+  obtain ⟨w, hw, rfl⟩ := List.mem_map.mp hx
+  simp only [FCol.base, List.mem_append] at hw
+  rcases hw with (((((h' | h') | h') | h') | h') | h') | h' <;> (split at h' <;> simp at h'; subst h'; rfl)
+
+/-- no string default -/
+theorem FCol.settings_bp_int (s : FCol) (w : Flag) (ws : List Flag) (h : s.flags = w :: ws)
+    (hd : s.props.Pairwise (fun a b => a.1 ≠ b.1)) (h0 : s.dstr = []) :
     colOfSettings s.name s.type (foldColSettings ((w :: ws).map Flag.setting) none) = s.bp := by
   rw [← h, map_setting_flags, fold_prefix_refs, fold_append_props _ _ (FCol.base_no_prop s)]
-  have hr : (foldColSettings (s.base.map Flag.setting) none).refs = [] := by
-    obtain ⟨n, t, a, b, c, d, e, ps, dd, rr⟩ := s
-    cases dd <;> cases e <;> cases a <;> cases b <;> cases c <;> cases d <;> rfl
-  simp only [hr, List.append_nil]
-  obtain ⟨n, t, a, b, c, d, e, ps, dd, rr⟩ := s
+  simp only [FCol.base_refs, List.append_nil]
+  obtain ⟨n, t, a, b, c, d, e, ps, dd, rr, ds⟩ := s
   have hdict := dictOf_distinct ps hd
+  simp only at h0
+  subst h0
   cases dd <;> cases e <;> cases a <;> cases b <;> cases c <;> cases d <;>
     (simp only [colOfSettings, FCol.bp, hdict]; rfl)
 
+/-- no integer default -/
+theorem FCol.settings_bp_str (s : FCol) (w : Flag) (ws : List Flag) (h : s.flags = w :: ws)
+    (hd : s.props.Pairwise (fun a b => a.1 ≠ b.1)) (h0 : s.dflt = []) :
+    colOfSettings s.name s.type (foldColSettings ((w :: ws).map Flag.setting) none) = s.bp := by
+  rw [← h, map_setting_flags, fold_prefix_refs, fold_append_props _ _ (FCol.base_no_prop s)]
+  simp only [FCol.base_refs, List.append_nil]
+  obtain ⟨n, t, a, b, c, d, e, ps, dd, rr, ds⟩ := s
+  have hdict := dictOf_distinct ps hd
+  simp only at h0
+  subst h0
+  cases ds <;> cases e <;> cases a <;> cases b <;> cases c <;> cases d <;>
+    (simp only [colOfSettings, FCol.bp, hdict]; rfl)
+
+theorem FCol.settings_bp (s : FCol) (w : Flag) (ws : List Flag) (h : s.flags = w :: ws)
+    (hd : s.props.Pairwise (fun a b => a.1 ≠ b.1)) (hone : s.dflt = [] ∨ s.dstr = []) :
+    colOfSettings s.name s.type (foldColSettings ((w :: ws).map Flag.setting) none) = s.bp := by
+  rcases hone with h0 | h0
+  · exact FCol.settings_bp_str s w ws h hd h0
+  · exact FCol.settings_bp_int s w ws h hd h0
+
 theorem FCol.plain_bp (s : FCol) (h : s.flags = []) : plainCol s.name s.type = s.bp := by
-  obtain ⟨n, t, a, b, c, d, e, ps, dd, rr⟩ := s
+  obtain ⟨n, t, a, b, c, d, e, ps, dd, rr, ds⟩ := s
   cases rr with
   | cons p r => exfalso; simp [FCol.flags, refFlags] at h
   | nil =>
   cases ps with
   | cons p r => exfalso; simp [FCol.flags, propFlags] at h
   | nil =>
-    cases dd <;> cases e <;> cases a <;> cases b <;> cases c <;> cases d <;>
+    cases dd <;> cases ds <;> cases e <;> cases a <;> cases b <;> cases c <;> cases d <;>
       first | rfl | (exfalso; simp [FCol.flags, FCol.base, propFlags, refFlags] at h)
 
 /-! #### the rendered line -/
@@ -862,6 +949,10 @@ theorem flag_text_line (ap : Bool) (w : Flag) (hw : w.ok ap) : LineOK w.text ∧
   | note t =>
     obtain ⟨ht, _⟩ := hw
     have := quoted ['n', 'o', 't', 'e', ':', ' '] t ht (by decide)
+    simpa [Flag.text] using this
+  | defStr t =>
+    obtain ⟨ht, _⟩ := hw
+    have := quoted ['d', 'e', 'f', 'a', 'u', 'l', 't', ':', ' '] t ht (by decide)
     simpa [Flag.text] using this
   | prop k v =>
     obtain ⟨_, ⟨_, hall, _⟩, hv, _⟩ := hw
@@ -1055,12 +1146,28 @@ theorem FCol.render (db : Db) (ti ci : Nat) (s : FCol) (hok : s.ok db.allowProps
     congr 1
     simp only [← List.append_assoc]
     congr 1
-    obtain ⟨n, t, a, b, c, d, e', ps, dd, rr⟩ := s
+    have hone := hok.oneDefault
+    have hds := hok.dstrOK
+    obtain ⟨n, t, a, b, c, d, e', ps, dd, rr, ds⟩ := s
     cases dd with
     | nil =>
-      cases e' <;> cases a <;> cases b <;> cases c <;> cases d <;>
-        simp [FCol.col, FCol.base, Flag.text, lit, noteOptionToDbml] <;> simp [hnl] at *
+      cases ds with
+      | nil =>
+        cases e' <;> cases a <;> cases b <;> cases c <;> cases d <;>
+          simp [FCol.col, FCol.base, Flag.text, lit, noteOptionToDbml] <;> simp [hnl] at *
+      | cons y0 ys0 =>
+        have hq : Dbml.defaultToStr (DefaultVal.str (y0 :: ys0)) = '\'' :: prepareTextForDbml (y0 :: ys0) ++ ['\''] := by
+          rcases hds with h0 | ⟨_, _, _, h1, h2, h3⟩
+          · cases h0
+          · simp [Dbml.defaultToStr, h1, h2, h3]
+        cases e' <;> cases a <;> cases b <;> cases c <;> cases d <;>
+          simp [FCol.col, FCol.base, Flag.text, lit, noteOptionToDbml, DefaultVal.truthy, hq] <;> simp [hnl] at *
     | cons x0 xs0 =>
+      have hdsn : ds = [] := by
+        rcases hone with h0 | h0
+        · cases h0
+        · exact h0
+      subst hdsn
       have ht := truthy_digits (x0 :: xs0) (by simpa using hdig)
       cases e' <;> cases a <;> cases b <;> cases c <;> cases d <;>
         simp [FCol.col, FCol.base, Flag.text, lit, noteOptionToDbml, ht, Dbml.defaultToStr] <;> simp [hnl] at *
@@ -1095,7 +1202,7 @@ def flagForm : ColForm FCol where
       rw [hf] at hall
       have := tableColumn_settings props c s.name s.type w ws rest (by rw [hc]; simp [FCol.str, hf]) hp hok.name hok.type
         (hall w (by simp)) (fun q hq => hall q (by simp [hq]))
-      rw [FCol.settings_bp s w ws hf hok.distinct] at this
+      rw [FCol.settings_bp s w ws hf hok.distinct hok.oneDefault] at this
       exact this
   noTab := by
     intro ap s hok ch hch
@@ -1123,11 +1230,11 @@ def flagForm : ColForm FCol where
     intro ap enums s hok hres
     have hn := hok.noteNorm
     have hdig := hok.digits
-    obtain ⟨n, t, a, b, c, d, e, ps, dd, rr⟩ := s
+    obtain ⟨n, t, a, b, c, d, e, ps, dd, rr, ds⟩ := s
     have hres' : resolveTypePure enums t = ColType.plain t := hres
     cases dd with
     | nil =>
-      cases ps <;> cases e <;>
+      cases ds <;> cases ps <;> cases e <;>
         simp_all [buildColumn, buildDefault, resolveType, buildNote, FCol.bp, FCol.col,
           bind, Except.bind, pure, Except.pure]
     | cons x0 xs0 =>
@@ -1139,7 +1246,7 @@ def flagForm : ColForm FCol where
 
 /-- **C02 (and C15) for a table whose columns carry settings, end to end**: a database holding one table in schema
     public with any positive number of columns, each with a quoted name, a one-word type, ANY SUBSET of the settings
-    `pk`, `increment`, `unique`, `not null`, possibly an integer default, a one-line note and - when the properties switch is on - any
+    `pk`, `increment`, `unique`, `not null`, possibly an integer or a one-line string default, a one-line note and - when the properties switch is on - any
     number of arbitrary properties `key: 'value'` (keys and values exact, order kept), is rendered to DBML and parsed
     back to exactly the same database.  The settings travel through `column_settings` (switch off) or
     `column_settings_with_properties` (switch on), `parse_column_settings`, `ColumnBlueprint.build` (where the note
@@ -1173,9 +1280,9 @@ example : ∀ s ∈ [({ name := lit "id", type := lit "int", pk := true, increme
   simp at hs
   rcases hs with rfl | rfl | rfl
   · exact ⟨fun c hc => by revert c; decide, ⟨by decide, by decide⟩, fun c hc => by revert c; decide, by decide, by decide,
-      Or.inl rfl, (by intro kv h; cases h), (by intro kv h; cases h), by simp, Or.inl rfl, (by intro r h; cases h)⟩
+      Or.inl rfl, (by intro kv h; cases h), (by intro kv h; cases h), by simp, Or.inl rfl, Or.inl rfl, Or.inr rfl, (by intro r h; cases h)⟩
   · refine ⟨fun c hc => by revert c; decide, ⟨by decide, by decide⟩, fun c hc => by revert c; decide, by decide, by decide,
-      Or.inr rfl, ?_, ?_, by decide, Or.inl rfl, (by intro r h; cases h)⟩
+      Or.inr rfl, ?_, ?_, by decide, Or.inl rfl, Or.inl rfl, Or.inr rfl, (by intro r h; cases h)⟩
     · intro kv h
       simp at h
       rcases h with rfl | rfl
@@ -1185,7 +1292,7 @@ example : ∀ s ∈ [({ name := lit "id", type := lit "int", pk := true, increme
       simp at h
       rcases h with rfl | rfl <;> exact ⟨fun c hc => by revert c; decide, by decide⟩
   · exact ⟨fun c hc => by revert c; decide, ⟨by decide, by decide⟩, fun c hc => by revert c; decide, by decide, by decide,
-      Or.inl rfl, (by intro kv h; cases h), (by intro kv h; cases h), by simp, Or.inr ⟨by decide, by decide, by decide, by decide⟩, (by intro r h; cases h)⟩
+      Or.inl rfl, (by intro kv h; cases h), (by intro kv h; cases h), by simp, Or.inr ⟨by decide, by decide, by decide, by decide⟩, Or.inl rfl, Or.inr rfl, (by intro r h; cases h)⟩
 
 /-- the text of such a table, as the renderer model writes it (a test of the statement on one literal) -/
 example : flagForm.tableText (lit "t") [{ name := lit "id", type := lit "int", pk := true, increment := true, dflt := lit "7" },
@@ -1193,6 +1300,15 @@ example : flagForm.tableText (lit "t") [{ name := lit "id", type := lit "int", p
         props := [(lit "color", lit "red")] }]
     = lit "Table \"t\" {\n    \"id\" int [pk, increment, default: 7]\n    \"m\" text [unique, not null, note: 'it\\'s', color: 'red']\n}" := by
   decide
+
+/-- non-vacuity of the string default: `default: 'it\\'s new'` -/
+example : ({ name := lit "st", type := lit "text", dstr := lit "it's new", notNull := true } : FCol).ok false
+    ∧ ({ name := lit "st", type := lit "text", dstr := lit "it's new", notNull := true } : FCol).str
+        = lit "\"st\" text [default: 'it\\'s new', not null]" := by
+  refine ⟨⟨fun c hc => by revert c; decide, ⟨by decide, by decide⟩, fun c hc => by revert c; decide, by decide, by decide,
+    Or.inl rfl, (by intro kv h; cases h), (by intro kv h; cases h), by simp, Or.inl rfl,
+    Or.inr ⟨fun c hc => by revert c; decide, by decide, by decide, by decide, by decide, by decide⟩, Or.inl rfl,
+    (by intro r h; cases h)⟩, by decide⟩
 
 end C02
 end PyDBML
